@@ -24,7 +24,7 @@ def run(v, max_events=30000):
     if len(tests) < 20:
         raise Infra("repository tests not found")
     libobjs = vlib.build_lib("plain")
-    outdir = os.path.join(vlib.BUILD, "repotests_%s" % vlib.repo_hash())
+    outdir = os.path.join(vlib.BUILD, "repotests_%s_%d" % (vlib.repo_hash(), os.getpid()))      # per process: concurrent runs must not share trace files
     os.makedirs(outdir, exist_ok=True)
     results = []
     with concurrent.futures.ThreadPoolExecutor(max_workers=12) as ex:
@@ -43,6 +43,8 @@ def run(v, max_events=30000):
             nval += 1; nev += o
     v.cov["repository_tests_validated"] = nval
     v.cov["repository_test_heap_events"] = nev
+    import shutil
+    shutil.rmtree(outdir, ignore_errors=True)
     return nval, nev
 
 
@@ -66,7 +68,9 @@ def _validate(v, item, max_events):
                 f.write("\n".join(head) + "\n")
             n = max_events
         r = vlib.tlc("HeapTrace", "HeapTrace.cfg", workers=1, timeout=600, env={"TRACE": trace}, coverage=False, xmx="3g")
-        if ("Postcondition Accepted" in r.out and "is false" in r.out) or r.violated or r.error:
+        if r.error and not r.violated and not ("Postcondition Accepted" in r.out and "is false" in r.out):
+            raise Infra("TLC failed while validating the heap trace of %s: %s" % (name, (r.error or "")[:300]))
+        if ("Postcondition Accepted" in r.out and "is false" in r.out) or r.violated:
             k = max(0, r.depth - 1)
             lines = open(trace).read().splitlines()
             v.violation("repotest/%s/heap" % name, "heap event %d of test %s not explained by HeapTrace: %s (%s)" % (k, name, lines[k] if k < len(lines) else "?", r.violated or (r.error or "")[:200] or "no matching step"),
